@@ -8,6 +8,7 @@ package core
 // a later connect is refused.
 
 import (
+	"os"
 	"context"
 	"fmt"
 	"strings"
@@ -25,6 +26,7 @@ import (
 type StopConn struct {
 	Kind     string `json:"kind"`               // accepted | added | dial | dialpending (never answered)
 	Backlog  bool   `json:"backlog,omitempty"`  // the application writes more than the peer reads
+	Sendfile bool   `json:"sendfile,omitempty"` // ... and the backlog is (also) a queued Sendfile: a dup'ed descriptor is in flight
 	Deadline int    `json:"deadline_us,omitempty"`
 	Traffic  int    `json:"traffic,omitempty"`  // bytes the peer sends
 	Race     string `json:"race,omitempty"`     // what races with Stop: "" | connect (arrives around Stop) | peerclose | appclose | write
@@ -73,6 +75,7 @@ func genStopCase(r *simrt.Rand, tier string) *StopCase {
 			cn.Deadline = r.Pick(10, 1000, 1000000)
 		}
 		cn.Traffic = r.Pick(0, 0, 10, 1000)
+		cn.Sendfile = r.Bool(0.15)
 		cn.Race = []string{"", "", "connect", "peerclose", "appclose", "write"}[r.Intn(6)]
 		c.Conns = append(c.Conns, cn)
 	}
@@ -142,6 +145,15 @@ func shrinkStop(ci interface{}) []interface{} {
 	return out
 }
 
+// countRealFDs returns the number of descriptors the process holds (-1 if unknown).
+func countRealFDs() int {
+	ents, err := os.ReadDir("/proc/self/fd")
+	if err != nil {
+		return -1
+	}
+	return len(ents)
+}
+
 func engineGoroutine(desc string) bool {
 	return strings.Contains(desc, "nbio.") || strings.Contains(desc, "taskpool.") || strings.Contains(desc, "timer.") || strings.Contains(desc, "timer:")
 }
@@ -158,6 +170,14 @@ func runStop(t *testing.T, ci interface{}, trace bool) *common.Outcome {
 			return
 		}
 		pending := 0
+		usedSendfile := false
+		// (warm up first: the shared temp file and whatever the runtime opens lazily on the first
+		// directory read must not count as a leak of this run)
+		if f, err := OpenTempFile(); err == nil {
+			f.Close()
+		}
+		countRealFDs()
+		realFDs := countRealFDs()
 		stopInvoked := false
 		overlapped := false
 		var racers []func()
@@ -169,8 +189,18 @@ func runStop(t *testing.T, ci interface{}, trace bool) *common.Outcome {
 					if plan.Deadline > 0 {
 						cs.C.SetReadDeadline(time.Now().Add(time.Duration(plan.Deadline) * time.Microsecond))
 					}
-					if plan.Backlog {
+					if plan.Backlog && !plan.Sendfile {
 						cs.C.Write(make([]byte, c.K.SndCap*2+10))
+					}
+					if plan.Sendfile {
+						if f, err := OpenTempFile(); err == nil {
+							usedSendfile = true
+							cs.C.Sendfile(f, int64(c.K.SndCap*3+1000))
+							f.Close()
+							if plan.Backlog {
+								cs.C.Write(make([]byte, 10))
+							}
+						}
 					}
 				}
 				switch plan.Kind {
@@ -333,6 +363,13 @@ func runStop(t *testing.T, ci interface{}, trace bool) *common.Outcome {
 		}
 		if fds := w.K.OpenFDs(); len(fds) > 0 {
 			w.Fail("C18", "descriptor-leak", stopClass(c), "descriptors still open after Stop: %v", fds)
+		}
+		// Sendfile queues a dup of the (real) file descriptor: those are outside the simulated
+		// descriptor table, so the process's own table is compared with what it held at the start
+		if usedSendfile {
+			if now := countRealFDs(); realFDs >= 0 && now > realFDs {
+				w.Fail("C18", "descriptor-leak", stopClass(c)+"/sendfile", "%d descriptors of the process are still open after Stop that were not open before the run (a Sendfile was in flight: the dup'ed file descriptor of its queue entry)", now-realFDs)
+			}
 		}
 		o.NonTrivial = overlapped
 	})
